@@ -46,21 +46,21 @@ def valid_ref(ck, pos, xk):
     if ck == "Schedule":
         return xk in STATEMENT
     if ck == "Loop":
-        return (0 <= pos <= 2 and xk in DATANODE) or (pos == 3 and xk == "Schedule")
+        return (pos in (0, 1, 2) and xk in DATANODE) or (pos == 3 and xk == "Schedule")
     if ck == "IfBlock":
         return (pos == 0 and xk in DATANODE) or (pos in (1, 2) and xk == "Schedule")
     if ck == "WhileLoop":
         return (pos == 0 and xk in DATANODE) or (pos == 1 and xk == "Schedule")
     if ck == "Assignment":
-        return 0 <= pos < 2 and xk in DATANODE
+        return pos < 2 and xk in DATANODE
     if ck == "Call":
-        return xk in REFERENCE if pos == 0 else (pos > 0 and xk in DATANODE)
+        return xk in REFERENCE if pos == 0 else xk in DATANODE
     if ck == "BinaryOperation":
         return pos in (0, 1) and xk in DATANODE
     if ck == "UnaryOperation":
         return pos == 0 and xk in DATANODE
     if ck == "Range":
-        return 0 <= pos < 3 and xk in DATANODE
+        return pos < 3 and xk in DATANODE
     if ck == "ArrayReference":
         return xk in DATANODE or xk == "Range"
     if ck == "OMPParallelDirective":
